@@ -58,17 +58,17 @@ def rluw(bound):
 
 
 for (steps, bound, conv, tier) in ((1, 'usize::MAX', False, 'quick'), (2, 'usize::MAX', False, 'quick'), (3, 'usize::MAX', False, 'thorough'),
-                                   (2, '7', True, 'quick'), (3, '7', True, 'quick'), (2, '1 << 20', True, 'thorough'), (3, '1 << 20', True, 'thorough'), (2, 'usize::MAX', True, 'thorough')):
+                                   (2, '7', True, 'thorough'), (3, '7', True, 'thorough'), (2, '1 << 20', True, 'thorough'), (3, '1 << 20', True, 'thorough'), (2, 'usize::MAX', True, 'thorough')):
     inst(P, 'c16_rl_steps%d_%s_%s' % (steps, {'usize::MAX': 'any', '7': 'tiny', '1 << 20': 'small'}[bound], 'convert' if conv else 'observe'),
          'c16::rl_builder(%d, %s, %s)' % (steps, bound, 'true' if conv else 'false'), tier=tier, unwind=10, unwindset=rluw(bound), stubs=RLSTUBS,
-         cap=1500, cap_thorough=5400, mem=16, weight=50 * steps,
+         cap=1500, cap_thorough=5400, mem=30 if conv else 12, weight=50 * steps,
          role='rl builder',
          desc='RLBuilder: %d arbitrary calls (try_set(start,len) / set_len(n), arguments %s), observables after each call%s' % (steps, 'over all usize' if bound == 'usize::MAX' else 'at most ' + bound, ', then RLVector::from and the run iterator against the accepted (merged) runs' if conv else ''),
          shape={'steps': steps, 'bound': bound, 'convert': conv})
 
 for kinds in ('LT', 'TL', 'TT', 'TLT', 'LTT', 'TTT'):
     inst(P, 'c16_rl_seq_%s_tiny_convert' % kinds, 'c16::rl_builder_kinds(%d, 7, true, &[%s])' % (len(kinds), ', '.join('true' if c == 'T' else 'false' for c in kinds)),
-         tier='quick' if len(kinds) == 2 else 'thorough', unwind=10, unwindset=rluw('7'), stubs=RLSTUBS, cap=1500, cap_thorough=5400, mem=16, weight=100, role='rl builder',
+         tier='thorough', unwind=10, unwindset=rluw('7'), stubs=RLSTUBS, cap=1500, cap_thorough=5400, mem=30, weight=100, role='rl builder',
          desc='RLBuilder call sequence %s (T = try_set(start,len), L = set_len(n); arguments symbolic <= 7), then RLVector::from: run iterator yields exactly the accepted merged runs' % kinds,
          shape={'sequence': kinds, 'bound': 7})
 
